@@ -26,11 +26,14 @@ import (
 	"sync"
 	"time"
 
+	"context"
 	"net/netip"
 
+	"github.com/AdguardTeam/AdGuardHome/internal/client"
 	"github.com/AdguardTeam/AdGuardHome/internal/filtering"
 	"github.com/AdguardTeam/AdGuardHome/internal/verifx/lib"
 	"github.com/AdguardTeam/AdGuardHome/internal/verifx/srv"
+	"github.com/AdguardTeam/AdGuardHome/internal/whois"
 	vsync "github.com/AdguardTeam/AdGuardHome/verifx/vsync"
 	"github.com/AdguardTeam/dnsproxy/proxy"
 	"github.com/miekg/dns"
@@ -407,7 +410,7 @@ func mkBody(c *lib.Ctx, sc scenario) func() vsync.Body {
 		// Start from a state in which something has been served already: the
 		// query-log buffer, the statistics unit and the caches are not empty.
 		for ri := range requests {
-			if ri < 2 {
+			if ri < 2 && os.Getenv("C05_NO_WARMUP") == "" {
 				_, _, _ = requests[ri].run(a)
 			}
 		}
@@ -721,10 +724,76 @@ func phaseLists(c *lib.Ctx) {
 	rec(nil)
 }
 
+// phaseEscape: what the client storage hands out is a snapshot.  Requests read
+// these objects without any lock, so an object that a later update still
+// changes is shared state that has escaped the lock (the free-running race
+// pass sees such sharing only in one narrow order of the two accesses).
+// Deterministic: get the object, perform the update, compare.
+func phaseEscape(c *lib.Ctx) {
+	type ecase struct {
+		Engine string `json:"engine"`
+		Getter string `json:"getter"`
+	}
+	a, err := build(c.TmpDir, false)
+	if err != nil {
+		c.EngineError("assembly: " + err.Error())
+		return
+	}
+	defer a.close()
+	ctx := context.Background()
+	ip := netip.MustParseAddr("192.168.1.9")
+	showRT := func(rc *client.Runtime) string {
+		if rc == nil {
+			return "<nil>"
+		}
+		src, host := rc.Info()
+		return fmt.Sprintf("source=%v host=%q whois=%+v", src, host, rc.WHOIS())
+	}
+	showP := func(p *client.Persistent) string {
+		if p == nil {
+			return "<nil>"
+		}
+		var svcs []string
+		if p.BlockedServices != nil {
+			svcs = p.BlockedServices.IDs
+		}
+		return fmt.Sprintf("name=%q ids=%v upstreams=%v tags=%v services=%v own=%v/%v ignore=%v/%v", p.Name, p.IDs(), p.Upstreams, p.Tags, svcs, p.UseOwnSettings, p.UseOwnBlockedServices, p.IgnoreQueryLog, p.IgnoreStatistics)
+	}
+	check := func(getter, before, after string) {
+		c.Count("evals", 1)
+		c.Count("escape_probes", 1)
+		c.Distinct("nontrivial", "escape|"+getter)
+		if before != after {
+			c.Violation("shared-state-escapes-lock:"+getter, fmt.Sprintf("%s handed out an object that a later update of the storage changed (requests read it without the lock): before %s, after %s", getter, before, after), ecase{Engine: "escape", Getter: getter})
+		}
+	}
+	// Runtime client (DHCP lease for the address), then rDNS / WHOIS arrive.
+	rc := a.clients.ClientRuntime(ip)
+	b := showRT(rc)
+	a.clients.UpdateAddress(ctx, ip, "escaped.example", &whois.Info{City: "Elsewhere", Country: "ZZ", Orgname: "Other"})
+	a.clients.UpdateDHCP(ctx)
+	check("ClientRuntime", b, showRT(rc))
+	// Persistent client by every getter, then an update through the API.
+	p1, _ := a.clients.Find("10.0.0.1")
+	p2, _ := a.clients.FindByName("kid")
+	p3, _ := a.clients.FindLoose(netip.MustParseAddr("10.0.0.1"), "")
+	b1, b2, b3 := showP(p1), showP(p2), showP(p3)
+	code, body := a.call("POST", "/control/clients/update", `{"name":"kid","data":`+clientJSON("kid", "10.0.0.1", "10.0.0.77", "cid-zz")+`}`)
+	if code != 200 {
+		c.EngineError(fmt.Sprintf("escape probe: clients/update answered %d %s", code, body))
+		return
+	}
+	check("Find", b1, showP(p1))
+	check("FindByName", b2, showP(p2))
+	check("FindLoose", b3, showP(p3))
+	c.Sample(ecase{Engine: "escape", Getter: "ClientRuntime, Find, FindByName, FindLoose"})
+}
+
 func run(c *lib.Ctx) {
 	srv.Quiet()
 	if c.ShardI == 0 {
 		phaseQueue(c)
+		phaseEscape(c)
 	}
 	phaseLists(c)
 	// Half of the shards explore schedules, the other half run the race pass.
@@ -758,6 +827,14 @@ func replay(c *lib.Ctx, raw json.RawMessage) string {
 	var cs caseC
 	if err := json.Unmarshal(raw, &cs); err != nil {
 		return err.Error()
+	}
+	if cs.Engine == "escape" {
+		before := c.NumViolationKeys()
+		phaseEscape(c)
+		if c.NumViolationKeys() > before {
+			return "violation reproduced (shared state escapes the lock)"
+		}
+		return ""
 	}
 	if cs.Engine == "lists" {
 		var lc listCase
